@@ -5,6 +5,7 @@ package simrt
 // from the run seed, so a run is a pure function of (seed, code).
 type Rand struct{ s [4]uint64 }
 
+//go:norace
 func splitmix(x *uint64) uint64 {
 	*x += 0x9e3779b97f4a7c15
 	z := *x
@@ -14,6 +15,8 @@ func splitmix(x *uint64) uint64 {
 }
 
 // Mix derives an independent stream seed from a seed and a label.
+//
+//go:norace
 func Mix(seed uint64, label uint64) uint64 {
 	x := seed ^ (label * 0xd6e8feb86659fd93)
 	splitmix(&x)
@@ -21,6 +24,8 @@ func Mix(seed uint64, label uint64) uint64 {
 }
 
 // NewRand returns a generator for seed.
+//
+//go:norace
 func NewRand(seed uint64) *Rand {
 	r := &Rand{}
 	x := seed
@@ -30,9 +35,12 @@ func NewRand(seed uint64) *Rand {
 	return r
 }
 
+//go:norace
 func rotl(x uint64, k uint) uint64 { return (x << k) | (x >> (64 - k)) }
 
 // Uint64 returns the next value.
+//
+//go:norace
 func (r *Rand) Uint64() uint64 {
 	s := &r.s
 	res := rotl(s[1]*5, 7) * 9
@@ -47,6 +55,8 @@ func (r *Rand) Uint64() uint64 {
 }
 
 // Intn returns a value in [0,n). n<=0 yields 0.
+//
+//go:norace
 func (r *Rand) Intn(n int) int {
 	if n <= 1 {
 		return 0
@@ -55,6 +65,8 @@ func (r *Rand) Intn(n int) int {
 }
 
 // Range returns a value in [lo,hi] inclusive.
+//
+//go:norace
 func (r *Rand) Range(lo, hi int) int {
 	if hi <= lo {
 		return lo
@@ -63,12 +75,18 @@ func (r *Rand) Range(lo, hi int) int {
 }
 
 // Float64 returns a value in [0,1).
+//
+//go:norace
 func (r *Rand) Float64() float64 { return float64(r.Uint64()>>11) / (1 << 53) }
 
 // Chance returns true with probability p.
+//
+//go:norace
 func (r *Rand) Chance(p float64) bool { return r.Float64() < p }
 
 // Bytes fills b.
+//
+//go:norace
 func (r *Rand) Bytes(b []byte) {
 	for i := 0; i < len(b); {
 		v := r.Uint64()
@@ -81,9 +99,13 @@ func (r *Rand) Bytes(b []byte) {
 }
 
 // Read implements io.Reader (never fails).
+//
+//go:norace
 func (r *Rand) Read(b []byte) (int, error) { r.Bytes(b); return len(b), nil }
 
 // Perm returns a permutation of [0,n).
+//
+//go:norace
 func (r *Rand) Perm(n int) []int {
 	p := make([]int, n)
 	for i := range p {
